@@ -33,12 +33,15 @@ def run_property(prop: str, tier: str, seed: int, evidence_dir=None, quiet=False
         rep.stats["modules_parsed"] = len(idx.modules)
         rep.stats["functions_indexed"] = sum(len(m.functions) for m in idx.modules.values())
         mod.run(idx, rep, tier)
-        if tier == "thorough" and hasattr(mod, "selftest") and not os.environ.get("SA_NO_SELFTEST"):
+        if tier == "thorough" and not os.environ.get("SA_NO_SELFTEST") and not rep.has_unlisted_violations():
+            # the checker is itself checked: variants of the source on scratch copies must fire / stay silent as expected
             from .selftest import run_selftest
-            st = run_selftest(prop, quiet=quiet)
+            st = run_selftest(prop, quiet=True)
             rep.stats["selftest"] = st
+            if not quiet:
+                print(f"[{prop}] self-test: {st['variants']} variants ({st['must_fire']} must fire, {st['must_stay_silent']} must stay silent), {len(st['failed'])} failed")
             if st["failed"]:
-                raise AnalysisError(f"self-test failed for {prop}: {st['failed']}")
+                raise AnalysisError(f"self-test failed for {prop}: {st['failed'][:3]}")
         return rep.finish(evidence_dir=evidence_dir, quiet=quiet)
     except AnalysisError as e:
         print(f"ANALYSIS-ERROR property={prop} {e}")
